@@ -9,7 +9,7 @@
     [pid]; [selected s p] = shouldIncludePacket(session rooms, packet options).
     Hypothesis about the id generator (yeast): ids along a history are distinct - discharged for the
     real generator at the end of this file (C08_offset_ids_distinct), given a clock that never steps back. *)
-From SioV Require Import Base.GoSem Adapter.Session Adapter.SessionProofs Adapter.SessionConc Adapter.SessionConcProofs Adapter.SessionSlice Adapter.SessionSliceProofs Adapter.Yeast Adapter.YeastProofs Adapter.YeastSession.
+From SioV Require Import Base.GoSem Adapter.Session Adapter.SessionProofs Adapter.SessionConc Adapter.SessionConcProofs Adapter.SessionSlice Adapter.SessionSliceProofs Adapter.Yeast Adapter.YeastProofs Adapter.YeastSession Adapter.YeastFloat.
 Open Scope Z_scope.
 
 (** A successful restore returns exactly the selected packets emitted after the offset packet, in
@@ -340,3 +340,17 @@ Theorem C08_no_gap_generated : forall (num : list N -> N) ts W h0 t pid off s ms
   forall pre p post q, emitted h = pre ++ p :: post -> p_id p = off ->
     In q post -> selected s q = true -> In q ms.
 Proof. exact no_gap_generated. Qed.
+
+(** Go's Encode divides through float64: [int64(math.Floor(float64(num) / float64(64)))].  With IEEE-754
+    binary64 (Flocq: precision 53, emin -1074, round to nearest even) that IS integer division below 2^53
+    ([fdiv64], Adapter/YeastFloat.v) ... *)
+Theorem C08_offset_id_float_division_exact : forall n : Z,
+  0 <= n < 2 ^ 53 -> fdiv64 n = n / 64.
+Proof. exact float_division_exact. Qed.
+
+(** ... so the encoder written with the float division, loop for loop as in the Go source, is the
+    model's encoder there (these two theorems use the standard library's real numbers: their axioms are
+    listed by Print Assumptions and in the evidence). *)
+Theorem C08_offset_id_go_encoder_is_model : forall f (n : N),
+  (n < 2 ^ 53)%N -> enc_go_fuel f (Z.of_N n) = enc_fuel f n.
+Proof. exact enc_go_is_enc. Qed.
